@@ -144,7 +144,22 @@ def m_sqrt(x, numpy_semantics=False):
     return Sym(s, "r", meta=("sqrt", x))
 
 
+def _track(kind, arg_t, val_t):
+    """instance axioms for exp/log applications on this path: inverse pair and strict monotonicity (pairwise)."""
+    if ctx.PATH is None:
+        return
+    reg = ctx.PATH.ghost.setdefault("_explog", {"exp": [], "log": []})
+    for a0, v0 in reg[kind]:
+        if a0.eq(arg_t):
+            return
+        _assume((a0 < arg_t) == (v0 < val_t))
+        _assume((a0 == arg_t) == (v0 == val_t))
+    reg[kind].append((arg_t, val_t))
+
+
 def m_exp(x):
+    if is_sym(x) and x.meta and x.meta[0] == "log" and is_sym(x.meta[1]):
+        return to_real(x.meta[1])        # exp(log(y)) = y for y > 0 (log's precondition was enforced at creation)
     if not is_sym(x):
         if isinstance(x, np.ndarray):
             return np_map(m_exp, x)
@@ -157,8 +172,23 @@ def m_exp(x):
         except OverflowError:
             raise PyRaise("OverflowError", "math range error")
     xr = as_real_term(x)
+    if z3.is_app(xr) and xr.decl().kind() == z3.Z3_OP_ITE:
+        # exp distributes over if-then-else (so that each branch gets its own instance axioms)
+        e1, e0 = m_exp(Sym(xr.arg(1), "r")), m_exp(Sym(xr.arg(2), "r"))
+        return Sym(z3.If(xr.arg(0), as_real_term(lift(e1)), as_real_term(lift(e0))), "r")
     e = uf("exp")(xr)
     _assume(e > 0)
+    # homomorphism instance for a top-level sum/difference: exp(a +- b) = exp(a) */ exp(b)
+    if z3.is_app(xr) and xr.decl().kind() in (z3.Z3_OP_ADD, z3.Z3_OP_SUB) and xr.num_args() == 2:
+        a0, b0 = xr.arg(0), xr.arg(1)
+        ea, eb = uf("exp")(a0), uf("exp")(b0)
+        _assume(ea > 0)
+        _assume(eb > 0)
+        _assume(e == (ea * eb if xr.decl().kind() == z3.Z3_OP_ADD else ea / eb))
+    _assume(uf("log")(e) == xr)
+    _assume((xr == 0) == (e == 1))
+    _assume((xr > 0) == (e > 1))
+    _track("exp", xr, e)
     return Sym(e, "r", meta=("exp", x))
 
 
@@ -171,10 +201,17 @@ def m_log(x):
         if x <= 0:
             raise PyRaise("ValueError", "math domain error (log of a non-positive number)")
         return math.log(x)
+    if x.meta and x.meta[0] == "exp" and is_sym(x.meta[1]):
+        return to_real(x.meta[1])        # log(exp(y)) = y
     if bool(compare(x, 0, "<=")):
         raise PyRaise("ValueError", "math domain error (log of a non-positive number)")
     xr = as_real_term(x)
-    return Sym(uf("log")(xr), "r", meta=("log", x))
+    l = uf("log")(xr)
+    _assume(uf("exp")(l) == xr)
+    _assume((xr == 1) == (l == 0))
+    _assume((xr > 1) == (l > 0))
+    _track("log", xr, l)
+    return Sym(l, "r", meta=("log", x))
 
 
 def m_unary_uf(name, doc=None, native=None):
@@ -1124,6 +1161,8 @@ def make_externals(interp):
     E["bisect"] = LibModule("bisect", bisect, {})
     import fractions
     E["fractions"] = LibModule("fractions", fractions, {})
+    import numbers
+    E["numbers"] = LibModule("numbers", numbers, {})
 
     def qdiv(interp, n, d=1):
         if is_sym(n) or is_sym(d):
@@ -1424,6 +1463,28 @@ def install_numpy_models(interp):
             cnt = add(cnt, If(compare(x, v, op), 1, 0))
         return cnt
     register_model(np.searchsorted, n_searchsorted)
+
+    def n_argwhere(interp, a):
+        A = to_obj_array(a)
+        flat = [interp.truth(x) if is_sym(x) else bool(x) for x in A.reshape(-1).tolist()]
+        return np.argwhere(np.array(flat, dtype=bool).reshape(A.shape))
+    register_model(np.argwhere, n_argwhere)
+    register_model(np.flatnonzero, lambda interp, a: n_argwhere(interp, a).reshape(-1))
+
+    def n_argsort(interp, a, *args, **kw):
+        items = list(to_obj_array(a).reshape(-1).tolist())
+        order = []
+        for i, x in enumerate(items):        # insertion sort with forking comparisons (stable)
+            pos = len(order)
+            for j, o in enumerate(order):
+                if interp.truth(compare(x, items[o], "<")):
+                    pos = j
+                    break
+            order.insert(pos, i)
+        return np.array(order, dtype=np.int64)
+    register_model(np.argsort, n_argsort)
+    register_model(np.argpartition, lambda interp, a, kth, *r, **k: n_argsort(interp, a))
+    register_model(np.sort, lambda interp, a, *r, **k: to_obj_array(a).reshape(-1)[n_argsort(interp, a)])
 
     def n_isscalar(interp, x):
         return is_sym(x) or np.isscalar(x)
